@@ -25,6 +25,7 @@ type Chooser struct {
 	shard      int
 	decided    bool
 	done       bool
+	dynamic    bool
 
 	countTop bool
 	edges    *int64 // new choice-tree edges (points beyond the replayed prefix)
@@ -78,7 +79,7 @@ func (c *Chooser) Range(lo, hi int) int { return lo + c.Choose(hi-lo+1) }
 // (possibly diverging) execution of the case: it settles shard ownership for
 // short runs and publishes the trail for the watchdog / crash recovery.
 func (c *Chooser) Done() {
-	if c.done {
+	if c.done || c.dynamic {
 		return
 	}
 	if !c.decided && c.nShards > 1 {
@@ -106,6 +107,18 @@ func (c *Chooser) decide() {
 		panic(skipSignal{})
 	}
 }
+
+// DoneDynamic is Done for case bodies whose execution itself draws further
+// choices (controlled schedulers): shard ownership is settled and the trail so
+// far published, but Choose stays legal.
+func (c *Chooser) DoneDynamic() {
+	c.Done()
+	c.done = false
+	c.dynamic = true
+}
+
+// Finish marks the end of a dynamic case.
+func (c *Chooser) Finish() { c.done = true }
 
 // Choices returns the choices taken so far.
 func (c *Chooser) Choices() []int {
